@@ -46,7 +46,9 @@ func suiteFiles(c *ctx) {
 
 	names := []string{"add users", "Add-User_ID  column", "a\tb\nc", "../../etc/passwd", "v1.2.3", "Ünïcode ñame 数据", "  lead and trail  ", "UPPER",
 		"a/b\\c", "x\x00y\x7f", "", "___", "1234", "tab\there", "dots...and;semi:colons", "many     blanks", "cr\rlf\n"}
-	suffixes := [][2]string{{".up.sql", ".down.sql"}, {".sql", ""}, {".sql", ".sql"}, {"_up.sql", "_down.sql"}, {".up.test", ".down.test"}}
+	suffixes := [][2]string{{".up.sql", ".down.sql"}, {".sql", ""}, {".sql", ".sql"}, {"_up.sql", "_down.sql"}, {".up.test", ".down.test"},
+		// distinct suffixes where one ends with the other, and an empty up suffix
+		{".sql", ".down.sql"}, {".up.sql", ".sql"}, {"", ".down"}, {"sql", ".sql"}}
 	simple := []Stmt{tbl("t", col("a", "int(11)"), col("b", "int(11)"))}
 	id := 0
 	mode := []string{"plain", "version", "withversion", "emptyboth", "onlyup"}
@@ -107,6 +109,7 @@ func suiteFiles(c *ctx) {
 	for ri, sf := range suffixes {
 		dir := filepath.Join(root, fmt.Sprintf("r%d", ri))
 		os.MkdirAll(filepath.Join(dir, "sub"+sf[0]+"x"), 0755)
+		os.MkdirAll(filepath.Join(dir, "archive"+sf[0]), 0755) // a directory is not a migration file, whatever its name ends with
 		entries := map[string]string{
 			"20200101000000_b" + sf[0]: "B", "20190101000000_a" + sf[0]: "A", "20210101000000_c" + sf[0]: "C",
 			".hidden" + sf[0]: "H", "notes.txt": "N", "20200101000000_b" + sf[1] + ".bak": "K", "zz" + sf[0] + ".orig": "O",
